@@ -294,6 +294,26 @@ def r3_order(cx):
             top = [x for x in find_calls([s_ for s_ in fl.body if not isinstance(s_, FUNC_TYPES)]) if isinstance(x.func, ast.Name) and x.func.id == f_.name]
             ok2 = len(accdef) == 1 and len(top) == 1 and [U(a) for a in top[0].args] == [nodes_p] and bool(rets) and U(rets[0].value) == acc and top[0].lineno < rets[0].lineno
             what = "for n in level: flat.append(n); walk(n.children)"
+    if not inner:
+        # explicit stack: stack = list(reversed(nodes)); while stack: n = stack.pop(); flat.append(n); stack.extend(reversed(n.children)); return flat
+        wl = [s_ for s_ in fl.body if isinstance(s_, ast.While)]
+        if len(wl) == 1 and isinstance(wl[0].test, ast.Name) and not wl[0].orelse:
+            stk = wl[0].test.id
+            sd = [a for a in fl.body if isinstance(a, ast.Assign) and U(a.targets[0]) == stk]
+            b_ = wl[0].body
+            pops = [a for a in b_ if isinstance(a, ast.Assign) and U(a.value) == "%s.pop()" % stk]
+            if len(sd) == 1 and U(sd[0].value) in ("list(reversed(%s))" % nodes_p, "%s[::-1]" % nodes_p) and len(pops) == 1 and b_[0] is pops[0]:
+                nv = U(pops[0].targets[0])
+                aps = [x for x in find_calls(b_, attr="append") if [U(a) for a in x.args] == [nv]]
+                exts = [x for x in find_calls(b_, attr="extend") if U(x.func.value) == stk]
+                okb = len(aps) == 1 and len(exts) == 1 and [U(a) for a in exts[0].args] in (["reversed(%s.children)" % nv], ["%s.children[::-1]" % nv]) \
+                    and not guard_texts(aps[0], stop=wl[0]) and not guard_texts(exts[0], stop=wl[0]) and not has_exit(b_) and len(b_) == 3
+                if okb:
+                    acc = U(aps[0].func.value)
+                    accdef = [a for a in fl.body if isinstance(a, ast.Assign) and U(a.targets[0]) == acc and U(a.value) in ("[]", "list()")]
+                    ok = True
+                    ok2 = len(accdef) == 1 and bool(rets) and U(rets[0].value) == acc
+                    what = "while stack: n = stack.pop(); flat.append(n); stack.extend(reversed(n.children))"
     cx.require(ok, inner[0] if inner else fl, "deep search flattens in document (pre-)order: a node, then its children recursively", construct=what)
     cx.require(ok2, rets[0] if rets else fl, "every given node is flattened, in order", construct=short(rets[0]) if rets else "?")
     sl = qi.func("select", "C20.R3")
@@ -355,8 +375,11 @@ def r4_levels(cx):
     cx.require(ok, lam[0] if lam else da, "several attribute queries: any attribute satisfying any of them", construct=short(parent(lam[0])) if lam else "?")
     for cname, fnname in (("_AnyAttrQuery", "any"), ("_AllAttrQuery", "all"), ("ChildQuery", "any")):
         t = qi.func("%s.test" % cname, "C20.R4")
-        want = "%s((self.expr(a) for a in e.attrs))" % fnname if cname != "ChildQuery" else "any((self.expr(n) for n in e.children))"
-        cx.require(_ret_text(t.body) == want, t, "%s.test quantifies with %s" % (cname, fnname), construct=_ret_text(t.body))
+        q_ = feat.quantifier_of(t)
+        ep = params(t)[1]
+        over = "%s.attrs" % ep if cname != "ChildQuery" else "%s.children" % ep
+        ok = q_ is not None and q_[0] == fnname and q_[2] == over and q_[1] == "self.expr(%s)" % q_[3]
+        cx.require(ok, t, "%s.test quantifies with %s over %s" % (cname, fnname, over), construct="%s" % (q_,) if q_ else (_ret_text(t.body) or "?"))
     dn = qi.func("_desugar_name", "C20.R4")
     lams = [U(n.body) for n in walk_body(dn.body) if isinstance(n, ast.Lambda)]
     cx.require("e._name == q" in lams and "f(e._name)" in lams, dn, "a plain name matches by equality, a Boolean by its compiled function on the name", construct="%s" % lams)
